@@ -4,9 +4,12 @@ Metamorphic: the same experiment is built at two values hbar1 != hbar2, with the
 their documented units (position/momentum arguments and homodyne ``select`` ~ sqrt(hbar); ``Gaussian(V, r)``: V ~ hbar,
 r ~ sqrt(hbar); Vgate gamma ~ hbar^-1/2; everything else dimensionless).  Dimensionless outputs must be equal, quadrature
 means scale with sqrt(hbar2/hbar1), covariances and Wigner arguments with hbar2/hbar1.  refsim at both values is a second
-opinion for the Gaussian programs.
+opinion for the Gaussian programs.  Sampled measurements are seeded identically at both values: homodyne outcomes scale with
+sqrt(hbar), heterodyne outcomes are equal.  Sub-check utils_states: the helpers of strawberryfields/utils/states.py (hbar argument).
 """
 from __future__ import annotations
+
+import os
 
 import numpy as np
 from hypothesis import strategies as st
@@ -15,26 +18,100 @@ from vf import fockref, gen, refsim, sfrun, spec
 from vf.core import Sub
 
 RULE = ("programs of 1..3 modes that contain at least one hbar-sensitive operation (Xgate, Zgate, Vgate, Gaussian(V, r), "
-        "MeasureHomodyne(select), plus Pgate/CXgate/CZgate/Coherent/DisplacedSqueezed/MSgate whose arguments are dimensionless) "
-        "built at two hbar values drawn from (0.2, 4]; non-trivial = such an operation has a non-zero argument")
+        "MeasureHomodyne with select or sampled (then the samples are compared too, optionally fed forward into a later gate), "
+        "MSgate average / single shot, plus Pgate/CXgate/CZgate/Coherent/DisplacedSqueezed/MeasureHeterodyne whose arguments are "
+        "dimensionless; bosonic non-Gaussian preparations Catstate/Fock/GKP; nearly-unsqueezed states at the is_squeezed / is_coherent "
+        "thresholds) built at two hbar values drawn from (0.2, 4] (sometimes 0.05 / 10 / 25); non-trivial = such an operation has a "
+        "non-zero argument.  utils_states: the NumPy state helpers of strawberryfields.utils at two hbar values")
 ASSUMPTIONS = [
     "TensorFlow backend not exercised (not installed)",
     "tolerances: phase space 1e-8 relative to scale (2e-5 when a homodyne post-selection is involved: finite-squeezing POVM of the "
     "gaussian backend); Fock density tensors 1e-8 (identical truncation at both hbar values; 1e-5 with homodyne select)",
     "unit conventions taken from the ops.py docstrings: X(x)=exp(-i x p/hbar), Z(p)=exp(i p x/hbar), P(s)=exp(i s x^2/2hbar), "
     "V(gamma)=exp(i gamma x^3/3hbar), CX/CZ s dimensionless",
+    "sampled measurements: both runs are seeded identically and the simulators are hbar-free (ops.py rescales around the backend call), so "
+    "the homodyne samples must agree after division by sqrt(hbar) (1e-7 relative) and heterodyne samples must be equal",
+    "state-method arguments that are quadrature values (wigner / marginal / x_quad_values grids, the linear and constant coefficients of "
+    "poly_quad_expectation, the (mu, cov) of fidelity) are given in units of sqrt(hbar/2), hbar/2",
+    "is_squeezed / is_coherent near their thresholds: the squeezing values used keep the deviation of cov/(hbar/2) from the identity at "
+    "least 5 % away from the default tolerances 1e-6 / 1e-10 for every squeezing phase",
 ]
 REQUIRED_LABELS = {"all": ["backend:gaussian", "backend:bosonic", "backend:fock", "op:Xgate", "op:Zgate", "op:Gaussian", "op:MeasureHomodyne",
                            "op:Vgate", "api:wigner", "api:quad_expectation", "api:parity_expectation", "api:squeezing", "api:is_coherent",
-                           "api:poly_quad_expectation", "api:fidelity_coherent"]}
+                           "api:poly_quad_expectation", "api:fidelity_coherent",
+                           # input classes added by the generator audit (each 40..300 cases per quick run)
+                           "hom:sampled", "hom:feedforward", "op:MSgate", "MSgate:single_shot", "MSgate:avg", "op:MeasureHeterodyne",
+                           "bosonic:multi_weight", "near_threshold", "gaussian:exact_branch", "hbar:extreme", "api:poly_full", "api:wigner_q",
+                           "api:fidelity", "api:purity", "api:marginal", "fn:displaced_squeezed_state", "fn:squeezed_state", "fn:coherent_state",
+                           "fn:squeezed_cov"]}
+
+# AUDIT-FINDING msgate-ancilla-units: Result.ancillae_samples of MSgate(avg=False) scale with 1/sqrt(hbar) (ops.py MSgate._apply returns
+# ancillae_val / s, MeasureHomodyne returns s * val); the comparison of the ancilla outcomes is switched off until that is decided
+CHECK_MS_ANCILLA = bool(os.environ.get("C15_CHECK_MS_ANCILLA"))  # set the variable to reproduce out/audit/C15-msgate-ancilla-units.json
 
 G_ALPH = ["Xgate", "Zgate", "Pgate", "CXgate", "CZgate", "Coherent", "DisplacedSqueezed", "Dgate", "Sgate", "BSgate", "Rgate", "S2gate",
           "LossChannel", "Thermal", "MZgate", "Fouriergate"]
-SENSITIVE = {"Xgate", "Zgate", "Vgate", "Gaussian", "MeasureHomodyne", "Pgate", "CXgate", "CZgate", "Coherent", "DisplacedSqueezed"}
+SENSITIVE = {"Xgate", "Zgate", "Vgate", "Gaussian", "MeasureHomodyne", "Pgate", "CXgate", "CZgate", "Coherent", "DisplacedSqueezed", "MSgate",
+             "MeasureHeterodyne"}
 
 
 def selftest():
     refsim.selftest()
+
+
+def _is_sym(p):
+    return isinstance(p, list)
+
+
+def _has_sym(ops_):
+    return any(_is_sym(p) for o in ops_ for p in o[1])
+
+
+def _build(n, oplist):
+    """Program with measured parameters: a parameter ["meas", src, c] stands for c * q[src].par"""
+    import strawberryfields as sf
+    from strawberryfields import ops
+
+    prog = sf.Program(n)
+    with prog.context as q:
+        for o in oplist:
+            flags = o[3] if len(o) > 3 else {}
+            op = spec.make_op(ops, o[0], o[1], flags, sym=lambda ast: ast[2] * q[ast[1]].par)
+            regs = tuple(q[m] for m in o[2])
+            op | (regs if len(regs) != 1 else regs[0])  # pylint: disable=expression-not-assigned
+    return prog
+
+
+def _run(be, n, ops_, h, seed, cutoff=6, pure=True):
+    ops_ = _gauss_op_specs(ops_)
+    if _has_sym(ops_):
+        with sfrun.HbarCtx(h):
+            prog = _build(n, ops_)
+        return sfrun.run(be, n, None, h, cutoff, pure, seed=seed, prog=prog)
+    return sfrun.run(be, n, ops_, h, cutoff, pure, seed=seed)
+
+
+def _samples(res, ops_):
+    """-> [(mode, 'sqrt' | 'dimless', values)]: homodyne outcomes are quadrature values, everything else is dimensionless"""
+    kinds = {}
+    for o in ops_:
+        if o[0].startswith("Measure"):
+            for m in o[2]:
+                kinds[m] = o[0]
+    sd = res.samples_dict or {}
+    return [(int(m), "sqrt" if kinds.get(int(m)) == "MeasureHomodyne" else "dimless", _flat(sd[m])) for m in sorted(sd)]
+
+
+def _compare_samples(a1, a2, h1, h2):
+    if [x[:2] for x in a1] != [x[:2] for x in a2] or [len(x[2]) for x in a1] != [len(x[2]) for x in a2]:
+        return "measured modes differ: %r at hbar=%g, %r at hbar=%g" % ([x[:2] for x in a1], h1, [x[:2] for x in a2], h2)
+    for (m, kind, v1), (_, _, v2) in zip(a1, a2):
+        v1, v2 = np.array(v1, complex), np.array(v2, complex)
+        if kind == "sqrt":
+            v1, v2 = v1 / np.sqrt(h1), v2 / np.sqrt(h2)
+        if v1.size and float(np.max(np.abs(v1 - v2))) > 1e-7 * (1 + float(np.max(np.abs(v1)))):
+            return "samples of mode %d%s: %s at hbar=%g but %s at hbar=%g (same seed)" % (m, " / sqrt(hbar)" if kind == "sqrt" else "", np.round(v1, 9).tolist(), h1, np.round(v2, 9).tolist(), h2)
+    return None
 
 
 def rescale(ops_, f):
@@ -43,7 +120,12 @@ def rescale(ops_, f):
     for o in ops_:
         name, params, modes = o[0], list(o[1]), o[2]
         flags = dict(o[3]) if len(o) > 3 else {}
-        if name in ("Xgate", "Zgate"):
+        if params and _is_sym(params[0]):
+            # ["meas", src, c] = c * q[src].par, the homodyne outcome of mode src, which carries units of sqrt(hbar): as a position /
+            # momentum shift c is dimensionless; as a dimensionless gate argument (angle) c ~ hbar^-1/2
+            if name not in ("Xgate", "Zgate"):
+                params[0] = ["meas", params[0][1], params[0][2] / f]
+        elif name in ("Xgate", "Zgate"):
             params[0] = params[0] * f
         elif name == "Vgate":
             params[0] = params[0] / f
@@ -58,16 +140,28 @@ def rescale(ops_, f):
     return out
 
 
+PS_KINDS = ["Xgate", "MSgate", "hom_sample", "Gaussian", "MeasureHomodyne", "nongauss", "Zgate", "near_threshold", "heterodyne", "none",
+            "Gaussian_weak_thermal", "Gaussian", "hom_sample", "Gaussian", "nongauss", "near_threshold", "heterodyne", "MSgate"]
+FOCK_KINDS = ["Xgate", "hom_sample", "Zgate", "MeasureHomodyne", "Vgate", "none", "hom_sample"]
+# squeezing values around the default tolerances of is_squeezed (max |cov/(hbar/2) - 1| > 1e-6) and is_coherent (1e-10).  For squeezing
+# r exp(i phi) the largest deviation is 2r max(|cos phi|, |sin phi|), i.e. in [1.41 r, 2 r]: none of these intervals contains its tolerance
+# (closest: 1.41 * 7.5e-7 = 1.06e-6, 2 * 4.5e-7 = 0.9e-6), so the answer does not hinge on rounding for any phase
+TINY_R = [7.5e-7, 4.5e-7, 1e-6, 2e-7, 1.5e-6, 3e-6, 8e-11, 4.5e-11, 2e-10, 3e-11, 0.0]
+
+
 @st.composite
 def gen_case(draw, fock=False):
     n = draw(st.integers(1, 3 if not fock else 2))
     h1 = draw(st.sampled_from([2.0, 1.0, 0.5, 0.7, 3.3]))
-    h2 = draw(gen.fl(0.2, 4.0).filter(lambda x: abs(x - h1) > 0.05))
+    h2 = draw(st.one_of(gen.fl(0.2, 4.0), gen.fl(0.2, 4.0), gen.fl(0.2, 4.0), st.sampled_from([0.05, 10.0, 25.0])).filter(lambda x: abs(x - h1) > 0.05))
     energy = "fock" if fock else "ps"
     alph = G_ALPH + (["Vgate", "Kgate", "Fock"] if fock else [])
     ops_ = draw(gen.op_list(n, alph, energy, 1, 6, no_mz_dagger=fock))
     # make sure an hbar-sensitive operation is present
-    kind = draw(st.sampled_from(["Xgate", "Zgate", "Gaussian", "MeasureHomodyne", "Vgate" if fock else "Xgate", "none"] + ([] if fock else ["Gaussian_weak_thermal"])))
+    kind = draw(st.sampled_from(FOCK_KINDS if fock else PS_KINDS))
+    seed = draw(st.integers(0, 10 ** 6))
+    tags = []
+    u1 = float(np.sqrt(h1 / 2))  # the vacuum standard deviation: quadrature-valued arguments are drawn in this unit
     if kind == "Gaussian_weak_thermal":
         # thresholds inside Gaussian(V) (pure? thermal? diagonal?) must classify the STATE, not its units: a weakly mixed state on several
         # modes at small / large hbar, where det V = (hbar/2)^(2k) (1 + O(nbar)) is far from 1 in absolute terms
@@ -95,23 +189,100 @@ def gen_case(draw, fock=False):
     elif kind == "Vgate":
         ops_.insert(draw(st.integers(0, len(ops_))), ["Vgate", [draw(gen.fl(-0.05, 0.05)) / np.sqrt(h1 / 2)], [m], {}])
     elif kind == "Gaussian" and not fock:
+        # every branch of Gaussian._decompose: pure & diagonal, pure & block diagonal, vacuum, thermal, generic; means omitted (r=None)
         k = draw(st.integers(1, n))
         modes = list(draw(st.permutations(list(range(n))))[:k])
-        _, V = draw(gen.covariance(k, h1, ["pure_generic", "mixed_generic", "thermal", "mixed_diag"]))
-        r = [draw(gen.fl(-1.0, 1.0)) * np.sqrt(h1 / 2) for _ in range(2 * k)]
-        ops_.insert(draw(st.integers(0, len(ops_))), ["Gaussian", [spec.enc_matrix(V), spec.enc_vec(r)], modes, {"kw": {"decomp": draw(st.booleans())}}])
+        gk, V = draw(gen.covariance(k, h1, ["pure_diag", "pure_generic", "pure_blockdiag", "mixed_generic", "thermal", "vacuum", "mixed_diag"]))
+        tags.append("gaussian_kind:" + gk)
+        if gk in ("pure_diag", "pure_blockdiag", "vacuum", "thermal"):
+            tags.append("gaussian:exact_branch")
+        if draw(st.integers(0, 3)) == 0:
+            r = None
+            tags.append("gaussian:r_none")
+        else:
+            r = spec.enc_vec([draw(gen.fl(-1.0, 1.0)) * np.sqrt(h1 / 2) for _ in range(2 * k)])
+        ops_.insert(draw(st.integers(0, len(ops_))), ["Gaussian", [spec.enc_matrix(V), r], modes, {"kw": {"decomp": draw(st.booleans())}}])
     elif kind == "MeasureHomodyne":
         ops_.append(["MeasureHomodyne", [draw(gen.angle())], [m], {"select": draw(gen.fl(-1.0, 1.0)) * np.sqrt(h1 / 2) * (0.4 if fock else 1)}])
-    return {"n": n, "h1": h1, "h2": h2, "ops": ops_, "queries": draw(api_queries(n, fock))}
+    elif kind == "hom_sample":
+        # a SAMPLED homodyne measurement (both runs use the same seed): the outcome is a quadrature value; optionally it is fed forward
+        # into a later gate of another mode as c * q[m].par (teleportation-style corrections), followed by a few more gates
+        ops_ = ops_[:4]
+        ops_.append(["MeasureHomodyne", [draw(st.one_of(st.sampled_from([0.0, gen.PI / 2]), gen.angle()))], [m], {}])
+        tags.append("hom:sampled")
+        if n >= 2 and draw(st.integers(0, 3)) > 0:
+            tgt = draw(st.sampled_from([x for x in range(n) if x != m]))
+            gate = draw(st.sampled_from(["Xgate", "Zgate", "Rgate", "Zgate", "Xgate"]))
+            c = draw(gen.fl(-1.0, 1.0)) * (0.3 if fock else 1.0)
+            ops_.append([gate, [["meas", m, c if gate in ("Xgate", "Zgate") else c / u1]], [tgt], {}])
+            tags.append("hom:feedforward")
+            ops_ += draw(gen.op_list(n, alph, energy, 0, 2, no_mz_dagger=fock))
+    elif kind == "MSgate":
+        # measurement-based squeezing (bosonic backend only): all five arguments are dimensionless
+        for _ in range(draw(st.integers(1, 2))):
+            r_anc = draw(st.one_of(st.sampled_from([10.0, 1.0]), gen.fl(0.3, 3.0)))
+            eta = draw(st.one_of(st.just(1.0), gen.fl(0.3, 1.0)))
+            avg = draw(st.sampled_from([True, False, True]))
+            tags.append("MSgate:avg" if avg else "MSgate:single_shot")
+            ops_.insert(draw(st.integers(0, len(ops_))), ["MSgate", [draw(gen.real(-0.8, 0.8, (0.0,))), draw(gen.angle()), r_anc, eta, avg], [draw(st.integers(0, n - 1))], {}])
+        ops_.insert(draw(st.integers(0, len(ops_))), [draw(st.sampled_from(["Xgate", "Zgate"])), [draw(gen.fl(-1.0, 1.0)) * u1], [m], {}])
+    elif kind == "heterodyne":
+        sel = {"re": draw(gen.fl(-1.0, 1.0)), "im": draw(gen.fl(-1.0, 1.0))} if draw(st.booleans()) else None
+        ops_.insert(draw(st.integers(0, len(ops_))), [draw(st.sampled_from(["Xgate", "Zgate"])), [draw(gen.fl(-1.0, 1.0)) * u1], [draw(st.integers(0, n - 1))], {}])
+        ops_.append(["MeasureHeterodyne", [], [m], {"select": sel} if sel is not None else {}])
+        tags.append("het:select" if sel is not None else "het:sampled")
+    elif kind == "nongauss":
+        # non-Gaussian preparations of the bosonic backend: several weights, complex means (Catstate), negative weights (Fock); at most one
+        # preparation with large weights (sum |w| ~ 800) so that cancellation stays below 1e-12
+        pre = []
+        big = False
+        for mm in draw(st.lists(st.integers(0, n - 1), min_size=1, max_size=2, unique=True)):
+            which = draw(st.sampled_from(["Catstate", "Fock", "GKP", "Catstate_real"] if not big else ["Catstate", "GKP"]))
+            if which == "Catstate":
+                pre.append(["Catstate", [draw(gen.fl(0.3, 1.2)), draw(gen.angle()), draw(st.sampled_from([0, 1, 0.5]))], [mm], {}])
+            elif which == "Catstate_real":
+                pre.append(["Catstate", [draw(gen.fl(0.5, 1.2)), draw(gen.angle()), draw(st.sampled_from([0, 1]))], [mm], {"kw": {"representation": "real"}}])
+                big = True
+            elif which == "Fock":
+                pre.append(["Fock", [1], [mm], {}])
+                big = True
+            else:
+                pre.append(["GKP", [], [mm], {"kw": {"state": [draw(gen.fl(0.0, gen.PI)), draw(gen.angle())], "epsilon": draw(st.sampled_from([0.5, 0.6])), "ampl_cutoff": 1e-3}}])
+        ops_ = pre + [o for o in ops_ if o[0] not in ("Coherent", "DisplacedSqueezed", "Thermal")][:4]
+        ops_.insert(draw(st.integers(len(pre), len(ops_))), [draw(st.sampled_from(["Xgate", "Zgate"])), [draw(gen.fl(-1.0, 1.0)) * u1], [m], {"H": True} if draw(st.booleans()) else {}])
+        tags.append("nongauss")
+        # (fock_prob / reduced_dm of a bosonic state cost one hafnian-based density matrix per weight: only with few weights)
+        heavy = any(o[0] == "GKP" or (o[0] == "Catstate" and len(o) > 3 and o[3]) for o in pre)
+        qs = [q for q in draw(api_queries(n, fock)) if not (heavy and q[0] in ("fock_prob", "reduced_dm"))]
+        return {"n": n, "h1": h1, "h2": h2, "ops": ops_, "queries": qs, "seed": seed, "tags": tags}
+    elif kind == "near_threshold":
+        # is_squeezed / is_coherent classify the state, not its units: squeezing just below / above their tolerances
+        ops_ = []
+        qs = []
+        for mm in range(n):
+            r = draw(st.sampled_from(TINY_R)) * draw(st.sampled_from([1.0, -1.0]))
+            phi = draw(st.one_of(st.sampled_from([0.0, gen.PI / 2, gen.PI]), gen.angle()))
+            ops_.append(["Squeezed", [r, phi], [mm], {}] if draw(st.booleans()) else ["Sgate", [r, phi], [mm], {}])
+            if draw(st.booleans()):
+                ops_.append([draw(st.sampled_from(["Xgate", "Zgate"])), [draw(gen.fl(-1.0, 1.0)) * u1], [mm], {}])
+            if draw(st.booleans()):
+                ops_.append(["Rgate", [draw(gen.angle())], [mm], {}])
+            qs += [["is_squeezed", mm], ["is_coherent", mm]]
+        tags.append("near_threshold")
+        return {"n": n, "h1": h1, "h2": h2, "ops": ops_, "queries": qs + draw(api_queries(n, fock)), "seed": seed, "tags": tags}
+    return {"n": n, "h1": h1, "h2": h2, "ops": ops_, "queries": draw(api_queries(n, fock)), "seed": seed, "tags": tags}
 
 
 @st.composite
 def api_queries(draw, n, fock=False):
-    """a sequence of state-method calls (the same sequence is issued on the state at both hbar values, in this order)"""
+    """a sequence of state-method calls (the same sequence is issued on the state at both hbar values, in this order); arguments that are
+    quadrature values are stored in units of sqrt(hbar/2) and converted by run_queries"""
     names = ["mean_photon", "fidelity_vacuum", "fidelity_coherent", "fock_prob", "parity_expectation", "number_expectation", "displacement",
-             "reduced_dm", "poly_quad_expectation", "quad_expectation"]
+             "reduced_dm", "poly_quad_expectation", "quad_expectation", "poly_full", "wigner_q", "x_quad_values", "poly_full"]
+    if n <= (2 if fock else 1):  # (thewalrus' probabilities() of a mixed Gaussian state takes seconds beyond one mode)
+        names += ["all_fock_probs"]
     if not fock:
-        names += ["is_coherent", "is_squeezed", "squeezing", "is_coherent", "squeezing"]
+        names += ["is_coherent", "is_squeezed", "squeezing", "is_coherent", "squeezing", "fidelity", "purity", "marginal", "fidelity"]
     out = []
     for _ in range(draw(st.integers(2, 6))):
         nm = draw(st.sampled_from(names))
@@ -121,7 +292,7 @@ def api_queries(draw, n, fock=False):
             out.append([nm, m])
         elif nm == "quad_expectation":
             out.append([nm, m, draw(gen.angle())])
-        elif nm == "fidelity_vacuum":
+        elif nm in ("fidelity_vacuum", "purity", "all_fock_probs"):
             out.append([nm])
         elif nm == "fidelity_coherent":
             out.append([nm, [[draw(gen.fl(-0.6, 0.6)), draw(gen.fl(-0.6, 0.6))] for _ in range(n)]])
@@ -131,6 +302,23 @@ def api_queries(draw, n, fock=False):
             out.append([nm, sub])
         elif nm == "number_expectation":
             out.append([nm, sub[:2]])
+        elif nm == "poly_full":
+            # x^T A x + d^T x + k with A over up to two modes (cross terms x_i p_j, x_i x_j), linear and constant terms, rotated frame
+            idx = sorted(set([m, draw(st.integers(0, n - 1))]))
+            rows = idx + [i + n for i in idx]
+            ent = [[draw(st.sampled_from(rows)), draw(st.sampled_from(rows)), draw(gen.fl(-1.0, 1.0))] for _ in range(draw(st.integers(0, 3)))]
+            d = [draw(gen.fl(-1.0, 1.0)) if (i in rows and draw(st.booleans())) else 0.0 for i in range(2 * n)] if draw(st.booleans()) else None
+            out.append([nm, ent, d, draw(st.sampled_from([0.0, 0.0, 0.7, -1.3])), draw(st.sampled_from([0.0, 0.0, 0.4, gen.PI / 2, -1.1]))])
+        elif nm == "wigner_q":
+            xs = [draw(gen.fl(-2.0, 2.0)) for _ in range(draw(st.sampled_from([3, 1, 2])))]
+            out.append([nm, m, xs, [draw(gen.fl(-2.0, 2.0)) for _ in range(draw(st.sampled_from([2, 1])))]])
+        elif nm == "x_quad_values":
+            out.append([draw(st.sampled_from(["x_quad_values", "p_quad_values"])), m])
+        elif nm == "marginal":
+            out.append([nm, m, draw(gen.angle())])
+        elif nm == "fidelity":
+            # fidelity with a displaced squeezed product state given as (means, cov) of the listed modes
+            out.append([nm, sub, [draw(gen.fl(-1.0, 1.0)) for _ in range(2 * len(sub))], [draw(gen.fl(-0.5, 0.5)) for _ in sub]])
         else:
             out.append([nm, m, draw(st.sampled_from(["xx", "pp", "xp", "n"]))])
     return out
@@ -147,6 +335,7 @@ def _flat(x):
 def run_queries(state, queries, n, hbar, cutoff=5, V=None):
     """-> list of (name, kind, values | exception type name); kind: 'dimless' | 'sqrt' | 'lin' | 'lin_sq' (how the values scale with hbar)"""
     res = []
+    s = float(np.sqrt(hbar / 2))
     for q in queries:
         nm = q[0]
         kind = "dimless"
@@ -168,6 +357,29 @@ def run_queries(state, queries, n, hbar, cutoff=5, V=None):
                 v = getattr(state, nm)(list(q[1]))
             elif nm == "displacement":
                 v = state.displacement(list(q[1]))
+            elif nm == "purity":
+                v = state.purity()
+            elif nm == "all_fock_probs":
+                v = state.all_fock_probs(cutoff=min(cutoff, 3))
+            elif nm == "wigner_q":
+                v = state.wigner(q[1], np.array(q[2]) * s, np.array(q[3]) * s)
+                kind = "per_area"
+            elif nm in ("x_quad_values", "p_quad_values"):
+                grid = np.linspace(-4.0, 4.0, 9) * s
+                v = getattr(state, nm)(q[1], grid, grid)
+                kind = "per_length"
+            elif nm == "marginal":
+                v = state.marginal(q[1], np.linspace(-3.0, 3.0, 7) * s, q[2])
+                kind = "per_length"
+            elif nm == "fidelity":
+                r_ = np.array(q[3])
+                v = state.fidelity([np.array(q[2]) * s, np.diag(np.concatenate([np.exp(-2 * r_), np.exp(2 * r_)])) * hbar / 2], list(q[1]))
+            elif nm == "poly_full":
+                A = np.zeros((2 * n, 2 * n))
+                for i, j, val in q[1]:
+                    A[i, j] = A[j, i] = val
+                v = state.poly_quad_expectation(A, None if q[2] is None else np.array(q[2]) * s, q[3] * s * s, q[4])
+                kind = "poly2"
             elif nm == "squeezing":
                 v = state.squeezing(list(q[1]))
                 # anisotropy of each mode's covariance (from the moments read before the queries): phi is rounding noise for an
@@ -209,6 +421,10 @@ def compare_queries(r1, r2, h1, h2, tol):
         elif kind == "poly2":
             a = a / np.array([h1, h1 ** 2])
             b = b / np.array([h2, h2 ** 2])
+        elif kind == "per_area":  # Wigner function: a density in x and p
+            a, b = a * h1, b * h2
+        elif kind == "per_length":  # marginal distributions: a density in one quadrature
+            a, b = a * np.sqrt(h1), b * np.sqrt(h2)
         elif kind == "squeezing":
             # (r, phi) per mode: phi is undefined for r = 0, and r = arccosh(..)/2 amplifies rounding near 0
             a2, b2 = a.reshape(-1, 3), b.reshape(-1, 3)
@@ -245,7 +461,7 @@ def _labels(ops_):
 def _nontrivial(ops_):
     for o in ops_:
         if o[0] in SENSITIVE:
-            if o[0] == "MeasureHomodyne" or o[0] == "Gaussian" or any(isinstance(p, float) and p != 0 for p in o[1][:1]):
+            if o[0] in ("MeasureHomodyne", "MeasureHeterodyne", "Gaussian") or any((isinstance(p, float) and p != 0) or _is_sym(p) for p in o[1][:1]):
                 return True
     return False
 
@@ -255,12 +471,17 @@ def check_ps(ctx, case):
     f = np.sqrt(h2 / h1)
     ops2 = rescale(ops1, f)
     has_hom = any(o[0] == "MeasureHomodyne" for o in ops1)
-    labels = _labels(ops1)
+    ms_shot = any(o[0] == "MSgate" and not o[1][4] for o in ops1)
+    seed = int(case.get("seed", 5))
+    labels = _labels(ops1) + list(case.get("tags") or [])
+    if h2 < 0.2 or h2 > 4:
+        labels.append("hbar:extreme")
     ran = []
     for be in ("gaussian", "bosonic"):
         try:
-            s1 = sfrun.run(be, n, _gauss_op_specs(ops1), h1, seed=5).state
-            s2 = sfrun.run(be, n, _gauss_op_specs(ops2), h2, seed=5).state
+            res1 = _run(be, n, ops1, h1, seed)
+            res2 = _run(be, n, ops2, h2, seed)
+            s1, s2 = res1.state, res2.state
         except sfrun.Rejected:
             labels.append("rejected:" + be)
             continue
@@ -275,9 +496,21 @@ def check_ps(ctx, case):
             return ctx.crash(exc, be)
         ran.append(be)
         labels.append("backend:" + be)
-        m1, V1, _ = sfrun.moments_of(s1, be, h1)
+        m1, V1, info1 = sfrun.moments_of(s1, be, h1)
         m2, V2, _ = sfrun.moments_of(s2, be, h2)
-        tol = (2e-5 if has_hom else 1e-8) * (1 + float(np.max(np.abs(V1))) / (h1 / 2))
+        if info1.get("weights", 1) > 1:
+            labels.append("bosonic:multi_weight")
+        tol = (2e-5 if has_hom or ms_shot else 1e-8) * (1 + float(np.max(np.abs(V1))) / (h1 / 2))
+        # measurement outcomes: homodyne samples are quadrature values (~ sqrt(hbar)), all other samples are dimensionless
+        bad = _compare_samples(_samples(res1, ops1), _samples(res2, ops2), h1, h2)
+        if bad:
+            return _fail(ctx, case, labels, "%s.samples_not_covariant" % be, bad, be)
+        if CHECK_MS_ANCILLA and ms_shot:  # AUDIT-FINDING msgate-ancilla-units
+            a1 = np.array(_flat([v for _, v in sorted((res1.ancillae_samples or {}).items())]), complex)
+            a2 = np.array(_flat([v for _, v in sorted((res2.ancillae_samples or {}).items())]), complex)
+            if a1.shape != a2.shape or float(np.max(np.abs(a1 / np.sqrt(h1) - a2 / np.sqrt(h2)))) > 1e-7 * (1 + float(np.max(np.abs(a1 / np.sqrt(h1))))):
+                return _fail(ctx, case, labels, "%s.ancillae_samples_not_covariant" % be, "MSgate ancilla homodyne outcomes / sqrt(hbar): %s at hbar=%g but %s at hbar=%g (same seed)" % (
+                    np.round(a1 / np.sqrt(h1), 9).tolist(), h1, np.round(a2 / np.sqrt(h2), 9).tolist(), h2), be)
         dm = float(np.max(np.abs(m2 / np.sqrt(h2) - m1 / np.sqrt(h1))))
         dv = float(np.max(np.abs(V2 / h2 - V1 / h1)))
         if dm > tol or dv > tol:
@@ -290,6 +523,8 @@ def check_ps(ctx, case):
                 ("fidelity_vacuum", lambda s: np.array([s.fidelity_vacuum()], float), 1.0),
                 ("fock_prob0", lambda s: np.array([s.fock_prob([0] * n, cutoff=5)], float), 1.0),
             ):
+                if name == "fock_prob0" and info1.get("weights", 1) > 40:  # one density-matrix element per weight
+                    continue
                 try:
                     a, b = fn(s1), fn(s2)
                 except Exception as exc:  # pylint: disable=broad-except
@@ -323,6 +558,8 @@ def check_ps(ctx, case):
                     [q[0] for q in qs], h1, float(np.max(np.abs(V1b - V1))), h2, float(np.max(np.abs(V2b - V2)))), be)
     # second opinion: refsim at both values (Gaussian programs only)
     try:
+        if _has_sym(ops1):
+            raise refsim.RefError("measured parameter")
         r1 = spec.ref_run(n, [o if o[0] != "Gaussian" else ["Gaussian", o[1], o[2], {}] for o in ops1], h1)
         r2 = spec.ref_run(n, [o if o[0] != "Gaussian" else ["Gaussian", o[1], o[2], {}] for o in ops2], h2)
         if float(np.max(np.abs(r2.V / h2 - r1.V / h1))) > 1e-9 * (1 + float(np.max(np.abs(r1.V)))) or float(np.max(np.abs(r2.mu / np.sqrt(h2) - r1.mu / np.sqrt(h1)))) > 1e-9 * (1 + float(np.max(np.abs(r1.mu)))):
@@ -336,7 +573,7 @@ def check_ps(ctx, case):
 def _fail(ctx, case, labels, sig, detail, be):
     ctx.note(case, True, labels)
     # root-cause label: the hbar-sensitive operation classes present
-    sens = sorted({o[0] for o in case["ops"] if o[0] in ("Xgate", "Zgate", "Vgate", "Gaussian", "MeasureHomodyne")})
+    sens = sorted({o[0] for o in case["ops"] if o[0] in ("Xgate", "Zgate", "Vgate", "Gaussian", "MeasureHomodyne", "MSgate")})
     return ctx.fail(sig + "." + "+".join(sens or ["none"]), detail)
 
 
@@ -345,11 +582,15 @@ def check_fock(ctx, case):
     f = np.sqrt(h2 / h1)
     ops2 = rescale(ops1, f)
     has_hom = any(o[0] == "MeasureHomodyne" for o in ops1)
-    labels = _labels(ops1)
+    labels = _labels(ops1) + list(case.get("tags") or [])
+    if h2 < 0.2 or h2 > 4:
+        labels.append("hbar:extreme")
+    seed = int(case.get("seed", 5))
     D = 7
     try:
-        s1 = sfrun.run("fock", n, ops1, h1, D, True, seed=5).state
-        s2 = sfrun.run("fock", n, ops2, h2, D, True, seed=5).state
+        res1 = _run("fock", n, ops1, h1, seed, D, True)
+        res2 = _run("fock", n, ops2, h2, seed, D, True)
+        s1, s2 = res1.state, res2.state
     except sfrun.Rejected:
         ctx.note(case, False, labels + ["rejected:fock"])
         return None
@@ -357,6 +598,9 @@ def check_fock(ctx, case):
         ctx.note(case, True, labels)
         return ctx.crash(exc, "fock")
     labels.append("backend:fock")
+    bad = _compare_samples(_samples(res1, ops1), _samples(res2, ops2), h1, h2)
+    if bad:
+        return _fail(ctx, case, labels, "fock.samples_not_covariant", bad, "fock")
     r1, r2 = fockref.state_dm(s1), fockref.state_dm(s2)
     tol = 1e-5 if has_hom else 1e-8
     d = float(np.max(np.abs(r1 - r2)))
@@ -373,7 +617,7 @@ def check_fock(ctx, case):
     W2 = np.array(s2.wigner(0, xv * f, pv * f), float)
     if float(np.max(np.abs(W2 * f * f - W1))) > 1e3 * tol * (1 + float(np.max(np.abs(W1)))):
         return _fail(ctx, case, labels, "fock.api.wigner_not_covariant", "W2(fx, fp) f^2 differs from W1(x, p) by %.3g" % float(np.max(np.abs(W2 * f * f - W1))), "fock")
-    qs = [q for q in (case.get("queries") or []) if q[0] not in ("displacement",)]
+    qs = [q for q in (case.get("queries") or []) if q[0] not in ("displacement", "fidelity", "purity", "marginal")]
     labels += sorted({"api:" + q[0] for q in qs})
     bad = compare_queries(run_queries(s1, qs, n, h1, D), run_queries(s2, qs, n, h2, D), h1, h2, tol)
     if bad:
@@ -382,15 +626,108 @@ def check_fock(ctx, case):
     return None
 
 
+# ----------------------------------------------------------------------------------------------
+# strawberryfields.utils (utils/states.py): NumPy state helpers with an explicit hbar argument
+# ----------------------------------------------------------------------------------------------
+UTIL_FNS = ["displaced_squeezed_state", "squeezed_state", "coherent_state", "squeezed_cov", "vacuum_state"]
+
+
+@st.composite
+def gen_utils(draw):
+    h1 = draw(st.sampled_from([2.0, 1.0, 0.5, 3.3]))
+    h2 = draw(st.one_of(gen.fl(0.2, 4.0), st.sampled_from([0.05, 10.0])).filter(lambda x: abs(x - h1) > 0.05))
+    return {"fn": draw(st.sampled_from(UTIL_FNS)), "h1": h1, "h2": h2, "r_d": draw(gen.real(0.0, 1.5)), "phi_d": draw(gen.angle()),
+            "r_s": draw(gen.real(-1.0, 1.0, (0.0, 1e-6))), "phi_s": draw(gen.angle()), "fock_dim": draw(st.integers(2, 8)),
+            "decomp": draw(st.booleans())}
+
+
+def _util_call(us, case, basis, hbar):
+    """-> (call of the helper, the same state as an op spec for refsim)"""
+    fn, kw = case["fn"], {"basis": basis, "fock_dim": case["fock_dim"]}
+    if hbar is not None:
+        kw["hbar"] = hbar
+    if fn == "vacuum_state":
+        return us.vacuum_state(**kw), ["Vacuum", [], [0]]
+    if fn == "coherent_state":
+        return us.coherent_state(case["r_d"], case["phi_d"], **kw), ["Coherent", [case["r_d"], case["phi_d"]], [0]]
+    if fn == "squeezed_state":
+        return us.squeezed_state(case["r_s"], case["phi_s"], **kw), ["Squeezed", [case["r_s"], case["phi_s"]], [0]]
+    if fn == "squeezed_cov":
+        cov = us.squeezed_cov(case["r_s"], case["phi_s"], **({} if hbar is None else {"hbar": hbar}))
+        return [np.zeros(2), cov], ["Squeezed", [case["r_s"], case["phi_s"]], [0]]
+    return (us.displaced_squeezed_state(case["r_d"], case["phi_d"], case["r_s"], case["phi_s"], **kw),
+            ["DisplacedSqueezed", [case["r_d"], case["phi_d"], case["r_s"], case["phi_s"]], [0]])
+
+
+def check_utils(ctx, case):
+    """the helpers document hbar as 'the value of hbar in the commutation relation [x, p] = i hbar': their Gaussian output is the (means, cov)
+    of the named state in that convention (refsim: independent closed forms), usable as Gaussian(cov, means) at sf.hbar = hbar; their
+    Fock output does not depend on hbar"""
+    import importlib
+
+    us = importlib.import_module("strawberryfields.utils.states")
+    h1, h2 = case["h1"], case["h2"]
+    labels = ["fn:" + case["fn"]]
+    ctx.note(case, nontrivial=case["fn"] != "vacuum_state", labels=labels)
+    out = {}
+    for h in (h1, h2):
+        try:
+            (mu, cov), op = _util_call(us, case, "gaussian", h)
+        except Exception as exc:  # pylint: disable=broad-except
+            return ctx.crash(exc, "utils." + case["fn"])
+        mu, cov = np.array(mu, float), np.array(cov, float)
+        ref = spec.ref_run(1, [op], h)
+        if float(np.max(np.abs(mu - ref.mu))) > 1e-9 * np.sqrt(h) * (1 + case["r_d"]) or float(np.max(np.abs(cov - ref.V))) > 1e-9 * h * float(np.exp(2 * abs(case["r_s"]))):
+            return ctx.fail("utils.%s.not_the_state_at_hbar" % case["fn"], "%s(.., basis='gaussian', hbar=%g) = means %s cov %s but the state has means %s cov %s in that convention" % (
+                case["fn"], h, mu.tolist(), cov.tolist(), ref.mu.tolist(), ref.V.tolist()))
+        out[h] = (mu, cov)
+    dm = float(np.max(np.abs(out[h2][0] / np.sqrt(h2) - out[h1][0] / np.sqrt(h1))))
+    dv = float(np.max(np.abs(out[h2][1] / h2 - out[h1][1] / h1)))
+    if dm > 1e-9 * (1 + case["r_d"]) or dv > 1e-9 * float(np.exp(2 * abs(case["r_s"]))):
+        return ctx.fail("utils.%s.not_covariant" % case["fn"], "means / sqrt(hbar) differ by %.3g, cov / hbar by %.3g between hbar=%g and hbar=%g" % (dm, dv, h1, h2))
+    # default hbar is documented as 2
+    (mu0, cov0), _ = _util_call(us, case, "gaussian", None)
+    (mu2, cov2), _ = _util_call(us, case, "gaussian", 2.0)
+    if float(np.max(np.abs(np.array(mu0) - mu2))) > 1e-12 or float(np.max(np.abs(np.array(cov0) - cov2))) > 1e-12:
+        return ctx.fail("utils.%s.default_hbar_not_2" % case["fn"], "output without hbar differs from hbar=2")
+    # round trip through the engine at sf.hbar = h2: Gaussian(cov, means) prepares the state whose dimensionless numbers are known
+    mu, cov = out[h2]
+    try:
+        st_ = sfrun.run("gaussian", 1, [["Gaussian", [spec.enc_matrix(cov)], [0], {"kw": {"r": mu, "decomp": bool(case["decomp"])}}]], h2).state
+        nbar = float(np.real(st_.mean_photon(0)[0]))
+        m_, V_ = np.array(st_.means(), float), np.array(st_.cov(), float)
+    except Exception as exc:  # pylint: disable=broad-except
+        return ctx.crash(exc, "utils.roundtrip")
+    a2 = case["r_d"] ** 2 if case["fn"] in ("coherent_state", "displaced_squeezed_state") else 0.0
+    sh2 = float(np.sinh(case["r_s"]) ** 2) if case["fn"] in ("squeezed_state", "squeezed_cov", "displaced_squeezed_state") else 0.0
+    # (1e-5: Gaussian(V) classifies and decomposes V with its own tolerances, default tol=1e-6 - e.g. squeezing r < 2.2e-7 at phase pi/2 is
+    # prepared as vacuum by the block-diagonal branch; an hbar mistake is an O(1) error)
+    if abs(nbar - (a2 + sh2)) > 1e-5 * (1 + a2 + sh2) or float(np.max(np.abs(m_ - mu))) > 1e-5 * np.sqrt(h2) * (1 + case["r_d"]) or float(np.max(np.abs(V_ - cov))) > 1e-5 * h2 * float(np.exp(2 * abs(case["r_s"]))):
+        return ctx.fail("utils.%s.roundtrip_through_Gaussian" % case["fn"], "Gaussian(cov, means) of the helper output at sf.hbar=%g: mean photon number %.9g (closed form |alpha|^2 + sinh(r)^2 = %.9g), means %s cov %s" % (
+            h2, nbar, a2 + sh2, m_.tolist(), V_.tolist()))
+    # Fock basis: dimensionless
+    if case["fn"] != "squeezed_cov":
+        k1, _ = _util_call(us, case, "fock", h1)
+        k2, _ = _util_call(us, case, "fock", h2)
+        if float(np.max(np.abs(np.array(k1, complex) - np.array(k2, complex)))) > 1e-12:
+            return ctx.fail("utils.%s.fock_ket_depends_on_hbar" % case["fn"], "kets at hbar=%g and hbar=%g differ" % (h1, h2))
+    return None
+
+
 SUBS = [
     Sub("phase_space", check=check_ps, strategy=lambda ctx: gen_case(False), examples={"quick": 500, "thorough": 5000},
         shards={"quick": 2, "thorough": 16}, rule="gaussian + bosonic at two hbar values with rescaled arguments; moments, state API, refsim cross-check"),
     Sub("fock", check=check_fock, strategy=lambda ctx: gen_case(True), examples={"quick": 60, "thorough": 600},
         shards={"quick": 3, "thorough": 16}, rule="fock backend at two hbar values: identical density tensors; quad_expectation / wigner covariance"),
+    Sub("utils_states", check=check_utils, strategy=lambda ctx: gen_utils(), examples={"quick": 400, "thorough": 3000},
+        shards={"quick": 1, "thorough": 4}, rule="strawberryfields.utils state helpers (hbar argument) at two hbar values: closed forms, covariance, "
+                                                 "round trip through Gaussian(cov, means) at sf.hbar = hbar, hbar-free Fock kets"),
 ]
 
 MANIFEST = {
     "technique": "Hypothesis metamorphic testing: the same experiment at two hbar values with arguments rescaled by their documented units",
     "text": ("Generated programs containing the hbar-sensitive front-end operations are run at two hbar values on every backend; dimensionless "
-             "results (Fock states, photon numbers, fidelities) must be equal and means / covariances / Wigner functions must scale as documented."),
+             "results (Fock states, photon numbers, fidelities, heterodyne outcomes) must be equal and means / covariances / Wigner functions / "
+             "homodyne outcomes (sampled with the same seed, also when fed forward into later gates) must scale as documented; the NumPy state "
+             "helpers of strawberryfields.utils are compared with closed forms at two hbar values."),
 }
